@@ -642,6 +642,26 @@ fn parse_function_args(s: &str) -> Result<Vec<Term>, String> {
         .collect()
 }
 
+/// Is the `+`/`-` at char position `i` the sign of a scientific-notation exponent (`1e-5`, `2.5E+3`)?
+///
+/// True only if the `e`/`E` before it ends a *numeric* token: digits and dots reaching back to the
+/// start of the token. An identifier that merely ends in `<digit>e` (`V1e - 1`, printed `V1e-1`) is
+/// not a number, so the operator after it stays a binary operator.
+fn is_exponent_sign(chars: &[char], i: usize) -> bool {
+    if i < 2 || !(chars[i - 1] == 'e' || chars[i - 1] == 'E') {
+        return false;
+    }
+    let mut j = i - 2;
+    if !(chars[j].is_ascii_digit() || chars[j] == '.') {
+        return false;
+    }
+    while j > 0 && (chars[j - 1].is_ascii_digit() || chars[j - 1] == '.') {
+        j -= 1;
+    }
+    // the mantissa must start the token: no identifier character directly before it
+    j == 0 || !(chars[j - 1].is_alphanumeric() || chars[j - 1] == '_')
+}
+
 /// Check if string contains arithmetic operators (but not inside angle brackets).
 /// Handles scientific notation: `e-` or `E-` in numbers is NOT a binary minus.
 fn contains_arithmetic_operator(s: &str) -> bool {
@@ -653,11 +673,8 @@ fn contains_arithmetic_operator(s: &str) -> bool {
             '<' => angle_depth += 1,
             '>' => angle_depth -= 1,
             '+' if angle_depth == 0 => {
-                // Check for scientific notation: digit/dot followed by e/E then +
-                if i >= 2
-                    && (chars[i - 1] == 'e' || chars[i - 1] == 'E')
-                    && (chars[i - 2].is_ascii_digit() || chars[i - 2] == '.')
-                {
+                // Check for scientific notation: numeric mantissa followed by e/E then +
+                if is_exponent_sign(&chars, i) {
                     continue;
                 }
                 return true;
@@ -666,11 +683,8 @@ fn contains_arithmetic_operator(s: &str) -> bool {
             '-' if angle_depth == 0 && i > 0 => {
                 // Distinguish unary minus at start vs binary minus.
                 // Binary minus has an alphanumeric/paren/underscore before it (possibly with spaces).
-                // Check for scientific notation: digit/dot followed by e/E then -
-                if i >= 2
-                    && (chars[i - 1] == 'e' || chars[i - 1] == 'E')
-                    && (chars[i - 2].is_ascii_digit() || chars[i - 2] == '.')
-                {
+                // Check for scientific notation: numeric mantissa followed by e/E then -
+                if is_exponent_sign(&chars, i) {
                     continue;
                 }
                 // Look backwards skipping whitespace to find the previous significant char
@@ -709,6 +723,7 @@ fn parse_add_sub(s: &str) -> Result<ArithExpr, String> {
     // Use char_indices for correct byte offsets with multi-byte Unicode
     let mut paren_depth: i32 = 0;
     let char_indices: Vec<(usize, char)> = s.char_indices().collect();
+    let chars: Vec<char> = char_indices.iter().map(|&(_, c)| c).collect();
 
     for ci in (0..char_indices.len()).rev() {
         let (byte_pos, ch) = char_indices[ci];
@@ -718,10 +733,7 @@ fn parse_add_sub(s: &str) -> Result<ArithExpr, String> {
             '(' => paren_depth = (paren_depth - 1).max(0),
             '+' if paren_depth == 0 => {
                 // Skip scientific notation: e+ or E+
-                if ci >= 2
-                    && (char_indices[ci - 1].1 == 'e' || char_indices[ci - 1].1 == 'E')
-                    && (char_indices[ci - 2].1.is_ascii_digit() || char_indices[ci - 2].1 == '.')
-                {
+                if is_exponent_sign(&chars, ci) {
                     continue;
                 }
                 let left = &s[..byte_pos];
@@ -736,10 +748,7 @@ fn parse_add_sub(s: &str) -> Result<ArithExpr, String> {
             }
             '-' if paren_depth == 0 && ci > 0 => {
                 // Skip scientific notation: e- or E-
-                if ci >= 2
-                    && (char_indices[ci - 1].1 == 'e' || char_indices[ci - 1].1 == 'E')
-                    && (char_indices[ci - 2].1.is_ascii_digit() || char_indices[ci - 2].1 == '.')
-                {
+                if is_exponent_sign(&chars, ci) {
                     continue;
                 }
                 // Check it's binary minus (not unary) by looking for alphanumeric before it
